@@ -804,7 +804,18 @@ static FlatOps<igris::flat_map<int, int>, igris::flat_set<int>, int, int> g_flat
 static FlatOps<igris::flat_map<int, int, std::greater<int>>, igris::flat_set<int, std::greater<int>>, int, int> g_flat1;
 static FlatOps<igris::flat_map<int, int, ByLastDigit>, igris::flat_set<int, ByLastDigit>, int, int> g_flat2;
 static FlatOps<igris::flat_map<std::string, int, std::greater<std::string>>, igris::flat_set<std::string, std::greater<std::string>>, int, std::string, std::string> g_flat3;
-static FlatBase *g_flats[4] = {&g_flat0, &g_flat1, &g_flat2, &g_flat3};
+// comparator 4 = "dirdesc": the set is constructed from a comparator OBJECT, flat_set<int, Dir>(Dir(true)); the map
+// has no such constructor and keeps the default-constructed (ascending) Dir
+struct FlatOpsDir : FlatOps<igris::flat_map<int, int, Dir>, igris::flat_set<int, Dir>, int, int>
+{
+    void reset() override
+    {
+        fm = igris::flat_map<int, int, Dir>();
+        fs = igris::flat_set<int, Dir>(Dir(true));
+    }
+};
+static FlatOpsDir g_flat4;
+static FlatBase *g_flats[5] = {&g_flat0, &g_flat1, &g_flat2, &g_flat3, &g_flat4};
 static FlatBase *g_flat = &g_flat0;
 static int cmp_index(const std::string &name)
 {
@@ -812,6 +823,7 @@ static int cmp_index(const std::string &name)
     if (name == "greater") return 1;
     if (name == "lastdigit") return 2;
     if (name == "sgreater") return 3;
+    if (name == "dirdesc") return 4;
     return -1;
 }
 
@@ -829,9 +841,11 @@ template <class K, class Cmp> struct FlatMirror : MirrorBase
     std::set<K, Cmp> ms;
     void reset() override
     {
-        mm.clear();
-        ms.clear();
+        mm = std::map<K, int, Cmp>();
+        ms = make_set((Cmp *)nullptr);
     }
+    template <class C> static std::set<K, C> make_set(C *) { return std::set<K, C>(); }
+    static std::set<K, Dir> make_set(Dir *) { return std::set<K, Dir>(Dir(true)); }
     std::string step(const std::vector<std::string> &w, out &o) override
     {
         auto I = [&](size_t k) { return MkKey<K>::of(k < w.size() ? atoi(w[k].c_str()) : 0); };
@@ -928,7 +942,8 @@ static FlatMirror<int, std::less<int>> g_mirror0;
 static FlatMirror<int, std::greater<int>> g_mirror1;
 static FlatMirror<int, ByLastDigit> g_mirror2;
 static FlatMirror<std::string, std::greater<std::string>> g_mirror3;
-static MirrorBase *g_mirrors[4] = {&g_mirror0, &g_mirror1, &g_mirror2, &g_mirror3};
+static FlatMirror<int, Dir> g_mirror4;
+static MirrorBase *g_mirrors[5] = {&g_mirror0, &g_mirror1, &g_mirror2, &g_mirror3, &g_mirror4};
 static MirrorBase *g_mirror = &g_mirror0;
 
 // ------------------------------------------------------------------ dispatch
@@ -979,6 +994,7 @@ static void run_op(const std::vector<std::string> &w, const std::string &line, o
             g_mirror = g_mirrors[ci];
             g_mirror->reset();
             if (var == "h") { g_flat = g_flats[ci]; g_flat->step("reset"); g_mode = 2; }
+            else if (ci == 4) { o.result = "bad-op"; o.fail("dirdesc is hosted only (compat/std/set declares no constructors)"); return; }
             else { c02_compat(line); g_mode = 3; }
         }
         else { o.result = "bad-op"; o.fail("unknown reset"); }
@@ -1407,8 +1423,10 @@ static void gen(rng &r, const std::string &tier)
             g.flat(c, (int)r.range(80, 160), 40, 20);
         // non-default comparators (handed to flat_map / flat_set / the compat std::map / std::set and to the
         // std::map / std::set of the oracle): descending, equivalence classes by last digit, descending text
-        for (const char *cmp : {"greater", "lastdigit", "sgreater"})
+        for (const char *cmp : {"greater", "lastdigit", "sgreater", "dirdesc"})
         {
+            if (c && std::string(cmp) == "dirdesc")
+                continue; // hosted only
             g.flat_init_dups(c, cmp, std::string(cmp) == "lastdigit" ? 10 : 1);
             g.flat_orders(c, cmp);
             for (int i = 0; i < (th ? 200 : 12); i++)
